@@ -1047,6 +1047,33 @@ func (env *SpecEnv) call(x *ast.CallExpr) tv {
 			}
 		}
 		sfail("unchanged: no field %s", fid.Name)
+	case "keptold": // keptold(T, field): every object of type T that existed in the old state still has its old field value
+		t := env.resolveType(x.Args[0])
+		fid, ok := x.Args[1].(*ast.Ident)
+		if t == nil || !ok {
+			sfail("keptold(Type, field)")
+		}
+		if pt, ok := t.Underlying().(*types.Pointer); ok {
+			t = pt.Elem()
+		}
+		stt, ok := t.Underlying().(*types.Struct)
+		if !ok || env.old == nil {
+			sfail("keptold: not a struct type or no old state")
+		}
+		for i := 0; i < stt.NumFields(); i++ {
+			if stt.Field(i).Name() == fid.Name {
+				si := ex.u.structOf(t)
+				c := compFieldT(t, i)
+				cur, old := ex.comp(env.heap, c, si.fields[i]), ex.comp(env.old, c, si.fields[i])
+				if cur.S == old.S {
+					return tv{T: tTrue, Ty: boolT}
+				}
+				ex.counter++
+				r := fmt.Sprintf("ko_%d", ex.counter)
+				return tv{T: Term{fmt.Sprintf("(forall ((%s Int)) (! (=> (<= %s %s) (= (select %s %s) (select %s %s))) :pattern ((select %s %s))))", r, r, env.oldAlloc.S, cur.S, r, old.S, r, cur.S, r), sBool}, Ty: boolT}
+			}
+		}
+		sfail("keptold: no field %s", fid.Name)
 	case "arrayof": // arrayof(s): the contents of the backing array of slice s
 		a := env.eval(x.Args[0])
 		st0, ok := a.Ty.Underlying().(*types.Slice)
